@@ -190,6 +190,7 @@ def main_check(prop, tier, seed, replay=None):
   tmp = tempfile.mkdtemp(prefix='vf-%s-' % prop)
   procs = []
   env = worker_env()
+  env['VERIF_SEED'] = str(seed)
   for shard in range(nshards):
     out = os.path.join(tmp, 'shard%d.json' % shard)
     cmd = [PY, '-X', 'dev', '-W', 'ignore', '-m', 'vf.worker', prop, tier,
@@ -234,6 +235,8 @@ def main_check(prop, tier, seed, replay=None):
     for k, v in r['counters'].items():
       agg['counters'][k] = agg['counters'].get(k, 0) + v
   import shutil
+  if os.environ.get('VERIF_KEEP_LOGS'):
+    shutil.copytree(tmp, os.environ['VERIF_KEEP_LOGS'], dirs_exist_ok=True)
   shutil.rmtree(tmp, ignore_errors=True)
 
   known = _known(prop)
